@@ -22,7 +22,7 @@ RULE = ("(a) Hypothesis draws dimension 2-3, cubic/cuboid box, grid 3..7 cells p
         "multiset(occupants of the translated non-nearby relative cells) + multiset(ExcludedCellsTagger targets) + "
         "multiset(SurplusCellsTagger targets) == relevant units minus the active one; the same with "
         "CellBoundingPotentialTagger in place of the veto family. (b) grammar-generated factor files (local and "
-        "non-local index sets, both orientations of asymmetric sets, comments, duplicates), 1..4 point masses per "
+        "non-local index sets, both orientations of asymmetric sets, comments incl. commented-out factor lines, duplicates), 1..4 point masses per "
         "object, 2..5 objects, active leaf or whole object: tagger output == docstring model as sets of tuples. "
         "Non-trivial: (a) >=1 surplus unit and >=1 unit in a nearby cell, (b) a non-local factor with >2 indices; "
         "distinct by all drawn arguments.")
@@ -390,7 +390,10 @@ def body_factors(rec, **c):
     text = []
     for i, (idx, nm) in enumerate(lines):
         if i in c["comments"]:
-            text.append("# comment %d" % i)
+            # comment lines, among them factor lines that were disabled by a leading '#'
+            text.append(["# comment %d" % i, "# [0, %d], %s" % (c["n"], c["lines"][0][1]),
+                         "#[%d, %d], %s" % (c["n"] - 1, 2 * c["n"] - 1, c["lines"][-1][1]),
+                         "# [0], %s" % c["lines"][0][1]][i % 4])
         text.append("[%s], %s" % (", ".join(str(j) for j in idx), nm))
     fd, path = tempfile.mkstemp(prefix="jffactors_", suffix=".txt")
     try:
